@@ -30,3 +30,13 @@ def run_cases(name, cases, oracle, nontrivial, rule, bound, sig=lambda c: repr(c
 
 def rng_for(seed, salt):
     return random.Random(f"{seed}-{salt}")
+
+
+def make_replay(bounded_fn):
+    """generic replay: regenerate the recorded case with the recorded seed/tier and report whether it still fails"""
+    def replay(inp):
+        out = bounded_fn(inp.get("tier", "quick"), inp.get("seed", 0))
+        hits = [v for b in out for v in b.get("violations", []) if v["input"].get("case") == inp.get("case")]
+        allv = [v for b in out for v in b.get("violations", [])]
+        return {"fails": bool(hits or allv), "same_case": bool(hits), "errors": [v["what"] for v in (hits or allv)[:3]]}
+    return replay
